@@ -152,10 +152,10 @@ func init() {
 	Register(&Prop{
 		ID:    "C11",
 		Title: "Queries never modify the caller's input document",
-		Rule: "rapid draws a document (rows with scalar columns and a nested array of objects, second table) and a query from the 40 wide construct " +
+		Rule: "rapid draws a document (rows with scalar columns and a nested array of objects, second table) and a query from the 47 wide construct " +
 			"templates (filters, CASE, IN, BETWEEN, functions, GROUP BY/HAVING/aggregates, all join kinds (both, one or no side aliased), CTEs incl. un-Wrapped WITH, a CTE used " +
 			"twice and WITH clauses inside derived tables / join sides / subqueries / EXISTS / other CTEs, derived tables, select-item / IN / [NOT] EXISTS subqueries on the row and on `<-`, UNION chains, ORDER BY/LIMIT, DISTINCT, nested " +
-			"FROM, star + subquery), with Wrapped on 1/4 of the cases; in 1/3 of the cases an injected function fails at a generated invocation " +
+			"FROM, star + subquery, matrices read through multi-dimensional bracket selectors, FUSE over objects of the document), with Wrapped on 1/4 of the cases; in 1/3 of the cases an injected function fails at a generated invocation " +
 			"index so that evaluation stops part-way; 1/4 of the cases execute the query twice on the same input. Oracle: cycle-safe, type-strict " +
 			"structural comparison of the live input against a harness-owned deep snapshot taken before New (no added/removed key, no `<-`, same " +
 			"array lengths and order, same leaves, no cycle). Non-trivial: a composite construct returned >=1 row, or the injected failure fired.",
